@@ -277,10 +277,13 @@ func (p *maskParser) Capture(s []string) error {
 			for i := n + 128; i < 128; i++ {
 				p.V6Mask[i/8] ^= 1 << (7 - (i % 8))
 			}
-			if n >= -32 {
-				for i := n + 32; i < 32; i++ {
-					p.V4Mask[i/8] ^= 1 << (7 - (i % 8))
-				}
+			// an IPv4 address has 32 bits: a longer suffix covers all of them (like /n with n > 32 does)
+			start := n + 32
+			if start < 0 {
+				start = 0
+			}
+			for i := start; i < 32; i++ {
+				p.V4Mask[i/8] ^= 1 << (7 - (i % 8))
 			}
 		}
 	}
